@@ -9,7 +9,7 @@ import sys
 import time
 
 VERIF = os.path.dirname(os.path.dirname(os.path.abspath(__file__)))
-NEEDS_MIRI = {"C04-3"}
+NEEDS_MIRI = {"C04-3", "C04-7", "C07-5", "C09-8"}
 
 
 def main():
